@@ -299,15 +299,21 @@ Definition tol_prop : Q := 10 * ns.       (* the property's 10 ns *)
 Definition close (tol a b : Q) : bool := Qle_bool (Qabs (a - b)) tol.
 
 (* one conversion: scales a b, input (jd1, jd2), observed output (jd1', jd2')
-   0 = equals the specification model within 1 ns; 2 = equals the model with the float-sum quirk; 1 = neither *)
+   0 = equals the specification model within 1 ns;
+   5 = the input is in a scale other than UTC and lies within 1 ns of a discontinuity of the specification (the
+       begin/end of an inserted leap second, which is not a double): equals the specification at an input 1 ns away;
+   2 = equals the model with the float-sum quirk; 1 = none of these *)
 Definition check_conv (c : string * string * (dy * dy) * (dy * dy)) : Z :=
   let '(a, b, (i1, i2), (o1, o2)) := c in
   match dy_toQ i1, dy_toQ i2, dy_toQ o1, dy_toQ o2 with
   | Some j1, Some j2, Some k1, Some k2 =>
       let y := Qred (k1 + k2) in
+      let near (j2' : Q) := match F_to_scale all_off a b (j1, j2') with
+                            | Some m => close (2 * tol_conv) (Qred m) y | None => false end in
       match F_to_scale all_off a b (j1, j2) with
       | Some m =>
           if close tol_conv (Qred m) y then 0%Z
+          else if negb (a =? "utc")%string && (near (j2 + ns) || near (j2 - ns)) then 5%Z
           else match F_to_scale q_float a b (j1, j2) with
                | Some mf => if close tol_conv (Qred mf) y then 2%Z else 1%Z
                | None => 1%Z
@@ -338,15 +344,23 @@ Definition in_drift_start_window (u : Q) : bool :=
   let r := find_row table u in
   negb (is_const r) && Qle_bool (r_start r) u && Qlt_b u (r_start r + us).
 
-(* round trip utc -> tai -> utc observed on the implementation: 0 = within 10 ns; 3 = fails, and the
-   exact model fails in the same way on the class above; 1 = fails otherwise *)
+(* UTC labels that never existed (TAI-UTC stepped down at the end of the row): outside the property's domain *)
+Definition in_skipped_labels (u : Q) : bool :=
+  let i := argmax_row table u in
+  let r := nth i table dummy_row in
+  let n := nth (S i) table dummy_row in
+  in_row u r && Qlt_b 0 (skip r n) && Qle_bool (r_end r - skip r n) u.
+
+(* round trip utc -> tai -> utc observed on the implementation: 0 = within 10 ns; 4 = outside the domain (skipped
+   label); 3 = fails, and the exact model fails in the same way on the class above; 1 = fails otherwise *)
 Definition check_rt_utc (c : (dy * dy) * (dy * dy)) : Z :=
   let '((a1, a2), (b1, b2)) := c in
   match check_same c with
   | 0%Z => 0%Z
   | _ =>
       let u := (dyq a1 + dyq a2) in
-      if in_drift_start_window u && negb (close tol_prop (tai2utc (utc2tai u)) u)
+      if in_skipped_labels u then 4%Z
+      else if in_drift_start_window u && negb (close tol_prop (tai2utc (utc2tai u)) u)
          && close tol_conv (Qred (tai2utc (utc2tai u))) (Qred (dyq b1 + dyq b2))
       then 3%Z else 1%Z
   end.
